@@ -1,7 +1,7 @@
 (* C07 — Unparsed constraints parse back to the same constraint.
    Only statements + `exact`; proofs are in Logic/UnparseFacts.v, Logic/ParseCoreFacts.v,
-   Logic/ParseCoreMore.v; the models in Logic/Unparse.v (printer) and Logic/ParseCore.v (reference
-   parser of the core concrete syntax).  The ANTLR parser itself is not modelled: that
+   Logic/ParseCoreMore.v, Logic/SmtReadFacts.v; the models in Logic/Unparse.v (printer), Logic/ParseCore.v
+   (reference parser of the core concrete syntax) and Logic/SmtRead.v (reference reader of SMT atoms).  The ANTLR parser itself is not modelled: that
    parse_isla (unparse_isla f) == f on the implementation is observed by the check (harness/c07.py
    part ii) on every run, and parse_core is tied to parse_isla on the fragment (stream `core`).
 
@@ -26,13 +26,30 @@
      the hex digits checked for every code point of the range), a backslash before `u` (\u{5c}) and every
      harmless backslash (not before a quote, not last).  With the two refutations both halves of K_str are
      necessary: the guard is the weakest possible of this form.
+   - C07_smt_print_read (Logic/SmtRead.v, SmtReadFacts.v): the INSIDE of SMT atoms.  read_sexpr is a reference reader
+     of the s-expression syntax ISLa hands to Z3 (words: true/false/INT/zero-ary regular expressions/variables;
+     string literals through read_lit; applications `(op a1 .. an)` with op from the operator table — the four
+     renamed kinds, `ite` -> decl name `if` — and the indexed operators (_ re.loop lo hi), (_ re.^ n));
+     wf_smt e -> read_sexpr (smt_expr_to_str e) = Some e, where wf_smt = operators of the table under their
+     Z3 decl names, variables that are ISLa IDs and no builtin words, string values outside K_str (exact
+     guard of C07_escape_roundtrip), every integer, two-parameter re.loop.  Outside: exactly the recorded
+     classes K_smt_op (`if`, `str.<`, nested `not`: C07_smt_print_read_refuted — the reader rejects the
+     printed text, as parse_isla does), K_loop_arity (not printable), K_smt_string.
+   - C07_print_parse_full: parse_full = parse_core, then every atom text is read by read_sexpr and its
+     variable words are checked against the declared variables:  wf_coreN f -> atoms_wfb f = true ->
+     parse_full (unparse f) = Some (binl f) — the constraint ITSELF (no `opaque`), n-ary connectives
+     left-nested; C07_print_parse_full_binary: = Some f on the binary fragment; C07_print_parse_full_eq:
+     equal to f up to the flattening of Formula.__eq__.  Tied to parse_isla by the streams `full`, `atoms`.
    STILL PARTIAL / NOT PROVED:
-   - print_parse outside wf_core / wf_coreN: match expressions (bound elements, terminals, optionals),
-     `not` over non-predicates (Formula.__neg__ rewrites), atoms that are not of the form `(op …)`
-     (`true`, `false`, a lone variable), the inside of SMT atoms (smt_str is not inverted; string literals
-     are covered separately by the escape round trip), the simplifications of __and__/__or__. *)
-From ISLA Require Import Unparse UnparseFacts UnparseMore UnparseHex UnparseEsc ParseCore ParseCoreFacts ParseCoreMore ParseCoreNary.
-From Coq Require Import String.
+   - print_parse outside wf_coreN: match expressions (bound elements, terminals, optionals) — parse_core
+     returns None on `="..."` headers; `not` over non-predicates (Formula.__neg__ rewrites; a negated SMT
+     atom is printed as the atom `(not ...)`, which the formula grammar reads as Negation + SMT atom:
+     neither parse_core nor read_sexpr accepts it), atoms that are not of the form `(op ...)` (`true`,
+     `false`, a lone variable — read_sexpr reads them, the lexer of parse_core does not produce them),
+     the simplifications of __and__/__or__.  read_sexpr is untyped (Z3's sort check is not modelled). *)
+From ISLA Require Import Unparse UnparseFacts UnparseMore UnparseHex UnparseEsc ParseCore ParseCoreFacts ParseCoreMore ParseCoreNary
+     SmtRead SmtReadFacts.
+From Coq Require Import String ZArith.
 Open Scope N_scope.
 
 (* fresh_variable never returns a name of the used set *)
@@ -222,3 +239,59 @@ Example C07_print_parse_nary_nonvacuous :
   parse_core (unparse ppN_ex) = Some (opaque (binl ppN_ex)) /\ flat (opaque (binl ppN_ex)) = flat (opaque ppN_ex).
 Proof. exact print_parseN_nonvacuous. Qed.
 Print Assumptions C07_print_parse_nary_nonvacuous.
+
+(* ---------- the inside of SMT atoms ---------- *)
+(* what smt_expr_to_str prints for an s-expression of the class wf_smt is read back as that s-expression *)
+Theorem C07_smt_print_read : forall e, wf_smt e -> read_sexpr (smt_str e) = Some e.
+Proof. exact smt_print_read. Qed.
+Print Assumptions C07_smt_print_read.
+
+(* Full statement (FALSE): forall e, read_sexpr (smt_str e) = Some e.  The recorded class K_smt_op
+   (sx_bad): `ite` is printed under its decl name `if`, `str.<` and a nested `not` are no operators of
+   the ISLa grammar — the reader rejects the printed text, as parse_isla does. *)
+Theorem C07_smt_print_read_refuted :
+  exists e1 e2 e3, sx_bad true e1 = true /\ read_sexpr (smt_str e1) = None /\
+                   sx_bad true e2 = true /\ read_sexpr (smt_str e2) = None /\
+                   sx_bad true e3 = true /\ read_sexpr (smt_str e3) = None.
+Proof. exact smt_print_read_refuted. Qed.
+Print Assumptions C07_smt_print_read_refuted.
+
+Example C07_smt_print_read_nonvacuous :
+  let e := SApp KInRe (lit "str.in_re")
+             [SVar (lit "x-1");
+              SApp KReConcat (lit "re.++")
+                [SApp (KLoop 1 0) (lit "re.loop") [SApp KOther (lit "str.to_re") [SStr [97; 34; 41; 92; 110; 0; 256]]];
+                 SApp (KPower 3) (lit "re.^") [SApp KOther (lit "re.allchar") []];
+                 SApp KOther (lit "re.range") [SStr (lit "a"); SStr (lit "(")]]] in
+  let e2 := SApp KOther (lit "=") [SApp KStrToInt (lit "str.to_int") [SVar (lit "x-1")];
+                                   SApp KOther (lit "-") [SInt (-12)%Z; SApp KOther (lit "str.len") [SVar (lit "y")]]] in
+  wf_smt e /\ read_sexpr (smt_str e) = Some e /\ wf_smt e2 /\ read_sexpr (smt_str e2) = Some e2 /\
+  smt_str e2 = lit "(= (str.to.int x-1) (- -12 (str.len y)))".
+Proof. exact smt_print_read_nonvacuous. Qed.
+Print Assumptions C07_smt_print_read_nonvacuous.
+
+(* ---------- print / parse round trip with the atoms read ---------- *)
+Theorem C07_print_parse_full : forall f, wf_coreN f -> atoms_wfb f = true -> parse_full (unparse f) = Some (binl f).
+Proof. exact print_parse_full. Qed.
+Print Assumptions C07_print_parse_full.
+
+Theorem C07_print_parse_full_binary : forall f, wf_core f -> atoms_wfb f = true -> parse_full (unparse f) = Some f.
+Proof. exact print_parse_full_binary. Qed.
+Print Assumptions C07_print_parse_full_binary.
+
+Theorem C07_print_parse_full_eq : forall f, wf_coreN f -> atoms_wfb f = true ->
+  exists g, parse_full (unparse f) = Some g /\ flat g = flat f.
+Proof. exact print_parse_full_flat. Qed.
+Print Assumptions C07_print_parse_full_eq.
+
+(* reading the atoms undoes `opaque` *)
+Theorem C07_deopaque_opaque : forall g, atoms_wfb g = true -> deopaque (opaque g) = Some g.
+Proof. exact deopaque_opaque. Qed.
+Print Assumptions C07_deopaque_opaque.
+
+Example C07_print_parse_full_nonvacuous :
+  wf_coreN ppF_ex /\ atoms_wfb ppF_ex = true /\ parse_full (unparse ppF_ex) = Some (binl ppF_ex) /\
+  binl ppF_ex <> ppF_ex /\ opaque (binl ppF_ex) <> binl ppF_ex /\
+  wf_coreN ppN_ex /\ atoms_wfb ppN_ex = true /\ parse_full (unparse ppN_ex) = Some (binl ppN_ex).
+Proof. exact print_parse_full_nonvacuous. Qed.
+Print Assumptions C07_print_parse_full_nonvacuous.
